@@ -1,3 +1,4 @@
+import NasimModel.Generated.GenExamples
 import NasimModel.Generated.GeneratorOk
 import NasimModel.Proofs.GenInv
 import NasimModel.Proofs.GenHosts
@@ -889,5 +890,21 @@ theorem C15_no_division_by_zero (alpha : Rat) (n : Nat) (ha : 0 < alpha) (hn : 1
     0 < alpha + (n : Rat) - 1 := by
   have h1 : (1 : Rat) ≤ (n : Rat) := by exact_mod_cast hn
   grind
+
+/-- non-vacuity: the hypothesis `generate p s = .ok (sc, s')` of the theorems above is met by what
+the repository's generator really does — the recorded decision streams of two benchmark
+parameter sets (regenerated on every run) replay through the model in the kernel -/
+theorem C15_hypotheses_satisfiable :
+    (∃ sc s', generate Generated.tiny_gen_params Generated.tiny_gen_stream = .ok (sc, s')) ∧
+    (∃ sc s', generate Generated.small_gen_params Generated.small_gen_stream = .ok (sc, s')) := by
+  constructor
+  · have h := Generated.tiny_gen_replays
+    cases hg : generate Generated.tiny_gen_params Generated.tiny_gen_stream with
+    | error e => simp [hg] at h
+    | ok r => exact ⟨r.1, r.2, rfl⟩
+  · have h := Generated.small_gen_replays
+    cases hg : generate Generated.small_gen_params Generated.small_gen_stream with
+    | error e => simp [hg] at h
+    | ok r => exact ⟨r.1, r.2, rfl⟩
 
 end NASim.Gen
